@@ -3,8 +3,9 @@
   Property theorems only.  Model: Gzx/Model/QRDecoder.lean (tied to qrcode/decoder by the `c01`/`c05`
   correspondence suites); helper lemmas: Gzx/Proofs/QRHamming.lean, Gzx/Proofs/QRInterleave.lean.
 -/
-import Gzx.Proofs.QRHamming
+import Gzx.Proofs.QRTolerance
 import Gzx.Proofs.QRInterleave
+import Gzx.Proofs.QRMatrixRead
 namespace Gzx.Properties.C05
 open Gzx Gzx.QRDec
 
@@ -17,32 +18,14 @@ open Gzx Gzx.QRDec
     copies decode to the data bits `d` of `w`. -/
 theorem format_tolerates_3 (T : List (Nat × Nat)) (mask : Nat) (hT : MinDist 7 (T.map (·.1)))
     (w d : Nat) (hw : (w, d) ∈ T) (e₁ e₂ : Nat) (h₁ : popCount 64 e₁ ≤ 3) (h₂ : popCount 64 e₂ ≤ 3) :
-    decodeFormatData T mask (w ^^^ e₁) (w ^^^ e₂) = some d := by
-  obtain ⟨pre, post, rfl⟩ := List.append_of_mem hw
-  simp only [List.map_append, List.map_cons] at hT
-  have ⟨hp, hq⟩ := minDist_split hT
-  have n1 : numBitsDiffering (w ^^^ e₁) w ≤ 3 := by rw [nbd_xor_left]; exact h₁
-  have n2 : numBitsDiffering (w ^^^ e₂) w ≤ 3 := by rw [nbd_xor_left]; exact h₂
-  have far : ∀ m, numBitsDiffering m w ≤ 3 → ∀ p : Nat × Nat, (p ∈ pre ∨ p ∈ post) → 4 ≤ numBitsDiffering m p.1 := by
-    intro m hm p hp'
-    have h7 : 7 ≤ numBitsDiffering w p.1 := by
-      rcases hp' with h | h
-      · rw [nbd_comm]; exact hp p.1 (List.mem_map_of_mem h)
-      · exact hq p.1 (List.mem_map_of_mem h)
-    have := far_of_near hm h7
-    omega
-  unfold decodeFormatData doDecodeFormat
-  rw [fmtLoop_before (w ^^^ e₁) (w ^^^ e₂) w d pre post maxInt32 0
-    (fun p h => ⟨far _ n1 p (Or.inl h), far _ n2 p (Or.inl h)⟩)
-    (fun p h => ⟨far _ n1 p (Or.inr h), far _ n2 p (Or.inr h)⟩) n1 n2 (by decide)]
+    decodeFormatData T mask (w ^^^ e₁) (w ^^^ e₂) = some d :=
+  decodeFormatData_near T mask hT w d hw e₁ e₂ h₁ h₂
 
 /-- the same at the level of `FormatInformation_DecodeFormatInformation`'s result: level and mask of `d` -/
 theorem format_tolerates_3_info (T : List (Nat × Nat)) (mask : Nat) (hT : MinDist 7 (T.map (·.1)))
     (w d : Nat) (hw : (w, d) ∈ T) (e₁ e₂ : Nat) (h₁ : popCount 64 e₁ ≤ 3) (h₂ : popCount 64 e₂ ≤ 3) :
-    decodeFormat T mask (w ^^^ e₁) (w ^^^ e₂) = (do let fi ← formatInfoOf d; pure (some fi)) := by
-  unfold decodeFormat
-  rw [format_tolerates_3 T mask hT w d hw e₁ e₂ h₁ h₂]
-  rfl
+    decodeFormat T mask (w ^^^ e₁) (w ^^^ e₂) = (do let fi ← formatInfoOf d; pure (some fi)) :=
+  decodeFormat_near T mask hT w d hw e₁ e₂ h₁ h₂
 
 /-- non-vacuity: the first four words of the standard's table are 7 apart; word 0x5125 (data 1 = level M,
     mask 1) with bits 0,4,9 flipped in one copy and bits 14,13,2 in the other still decodes to (M, 1) -/
@@ -58,41 +41,16 @@ example : decodeFormat [(0x5412, 0), (0x5125, 1), (0x5E7C, 2), (0x5B4B, 3)] 0x54
     with pairwise distance ≥ 8 returns what `Version_GetVersionForNumber(i+7)` returns. -/
 theorem version_decode_tolerates_3 (T : Tables) (hT : MinDist 8 T.vdi) (i w : Nat) (hw : T.vdi[i]? = some w)
     (e : Nat) (he : popCount 64 e ≤ 3) :
-    decodeVersionInformation T (w ^^^ e) = getVersionForNumber T.versions (i + 7) := by
-  have hi : i < T.vdi.length := by
-    rcases Nat.lt_or_ge i T.vdi.length with h | h
-    · exact h
-    · rw [List.getElem?_eq_none h] at hw; cases hw
-  have hsplit : T.vdi = T.vdi.take i ++ w :: T.vdi.drop (i + 1) := by
-    have hg : T.vdi[i] = w := by
-      rw [List.getElem?_eq_getElem hi] at hw; exact Option.some.inj hw
-    rw [← hg, ← List.drop_eq_getElem_cons hi, List.take_append_drop]
-  have hlen : (T.vdi.take i).length = i := by rw [List.length_take]; omega
-  rw [hsplit] at hT
-  have ⟨hp, hq⟩ := minDist_split hT
-  have n1 : numBitsDiffering (w ^^^ e) w ≤ 3 := by rw [nbd_xor_left]; exact he
-  have farP : ∀ t ∈ T.vdi.take i, 4 ≤ numBitsDiffering (w ^^^ e) t := by
-    intro t ht
-    have h8 : 8 ≤ numBitsDiffering w t := by rw [nbd_comm]; exact hp t ht
-    have := far_of_near n1 h8; omega
-  have farQ : ∀ t ∈ T.vdi.drop (i + 1), 4 ≤ numBitsDiffering (w ^^^ e) t := by
-    intro t ht
-    have := far_of_near n1 (hq t ht); omega
-  unfold decodeVersionInformation
-  rw [hsplit]
-  rcases verLoop_before (w ^^^ e) w (T.vdi.take i) (T.vdi.drop (i + 1)) 0 maxInt32 0 farP farQ n1 (by decide) with h | ⟨b, hb, h⟩
-  · rw [h, hlen]; simp
-  · rw [h, hlen]; simp [hb]
+    decodeVersionInformation T (w ^^^ e) = getVersionForNumber T.versions (i + 7) :=
+  decodeVersion_near T hT i w hw e he
 
 /-- … and at the level of one copy inside `ReadVersion` (decode + dimension check): a copy with ≤ 3
     flipped bits yields the version whose dimension the symbol has -/
 theorem version_tolerates_3 (T : Tables) (hT : MinDist 8 T.vdi) (i w : Nat) (hw : T.vdi[i]? = some w)
     (e : Nat) (he : popCount 64 e ≤ 3) (v : VersionInfo)
     (hv : getVersionForNumber T.versions (i + 7) = .ok v) (dim : Nat) (hd : v.dimension = dim) :
-    versionCopyOK T dim (w ^^^ e) = some v := by
-  unfold versionCopyOK
-  rw [version_decode_tolerates_3 T hT i w hw e he, hv]
-  simp [hd]
+    versionCopyOK T dim (w ^^^ e) = some v :=
+  versionCopyOK_near T hT i w hw e he v hv dim hd
 
 /-- `ReadVersion` control flow (two copies): when the first copy has ≤ 3 flipped bits the version is
     returned (and cached) without consulting the second copy; when the first copy is unusable and
@@ -116,6 +74,33 @@ theorem readVersion_second_copy (T : Tables) (p : Parser) (hc : p.ver = none) (h
   simp only [hc, hbig, if_false]
   rw [h1]
   simp [bind, Except.bind, hbad, h2, hv]
+
+/-! ## the same on whole symbols (matrix level) -/
+
+/-- Clause "up to three flipped bits in each copy of the format information", at the level of
+    `BitMatrixParser.ReadFormatInformation`: if the modules of the two format areas hold the word `w`
+    of a lookup entry with at most three flipped bits each, the parser returns (and caches) the
+    level and mask of that entry. -/
+theorem format_tolerates_3_symbol (T : Tables) (hT : MinDist 7 (T.fmt.map (·.1))) (p : Parser) (hc : p.fmt = none)
+    (w d : Nat) (hw : (w, d) ∈ T.fmt) (hlt : w < 2 ^ 15) (f : EC × Nat) (hf : formatInfoOf d = .ok f)
+    (e₁ e₂ : Nat) (b₁ : e₁ < 2 ^ 15) (b₂ : e₂ < 2 ^ 15) (h₁ : popCount 64 e₁ ≤ 3) (h₂ : popCount 64 e₂ ≤ 3)
+    (c₁ : formatCoords1.map (cellOf p.m p.mirror) = natToBits 15 (w ^^^ e₁))
+    (c₂ : (formatCoords2 p.m.dim).map (cellOf p.m p.mirror) = natToBits 15 (w ^^^ e₂)) :
+    readFormatInformation T p = .ok (f, { p with fmt := some f }) := by
+  rw [readFormat_reads T p hc (w ^^^ e₁) (w ^^^ e₂) (Nat.xor_lt_two_pow hlt b₁) (Nat.xor_lt_two_pow hlt b₂) c₁ c₂,
+    decodeFormat_near T.fmt T.fmtMask hT w d hw e₁ e₂ h₁ h₂, hf]
+  rfl
+
+/-- Clause "… and in each copy of the version information", at the level of `ReadVersion` (symbols of
+    version ≥ 7): the first copy with at most three flipped bits decides; the second is not consulted. -/
+theorem version_tolerates_3_symbol (T : Tables) (hT : MinDist 8 T.vdi) (p : Parser) (hc : p.ver = none)
+    (hbig : ¬ (p.m.dim - 17) / 4 ≤ 6) (i w : Nat) (hw : T.vdi[i]? = some w) (hlt : w < 2 ^ 18)
+    (e : Nat) (be : e < 2 ^ 18) (he : popCount 64 e ≤ 3) (v : VersionInfo)
+    (hv : getVersionForNumber T.versions (i + 7) = .ok v) (hd : v.dimension = p.m.dim)
+    (c₁ : (versionCoords1 p.m.dim).map (cellOf p.m p.mirror) = natToBits 18 (w ^^^ e)) :
+    readVersion T p = .ok (v, { p with ver := some v }) :=
+  readVersion_reads_first T p hc hbig (w ^^^ e) (Nat.xor_lt_two_pow hlt be) c₁ v
+    (versionCopyOK_near T hT i w hw e he v hv p.m.dim hd)
 
 /-! ## corrupted codewords -/
 
